@@ -722,6 +722,16 @@ func (e *Exec) valueKey(v Value) string {
 	case *ErrObj:
 		return fmt.Sprintf("e%d", x.id)
 	case *Closure:
+		if x == nil {
+			return "nilf"
+		}
+		if x.fn != nil {
+			k := "fn:" + x.fn.String() + "("
+			for _, v := range x.env {
+				k += e.valueKey(v) + ","
+			}
+			return k + ")"
+		}
 		return fmt.Sprintf("f%p", x)
 	case *ChanObj:
 		return fmt.Sprintf("c%p", x)
